@@ -1,10 +1,231 @@
 import EpModel.Driver.Util
-/- `view.*` and `spec.view.*` operations (stub; filled in by the owner of this family). -/
+import EpModel.Model.ViewAbs
+import EpModel.Spec.IcmpTables
+import EpModel.Spec.NdpFormat
+import EpModel.Spec.IgmpArpFormat
+/- `view.*` and `spec.view.*` operations: typed views of ICMPv4 / ICMPv6 / NDP / IGMP / ARP (C17). -/
 namespace EpModel.Driver.View
-open EpModel EpModel.Driver
+open EpModel EpModel.Driver EpModel.View EpModel.Spec
+
+def showSrc : LenSource → String
+  | .slice => "Slice" | .arpAddrLengths => "ArpAddrLengths"
+
+def showLayer : Layer → String
+  | .icmpv4 => "Icmpv4" | .icmpv4Timestamp => "Icmpv4Timestamp"
+  | .icmpv4TimestampReply => "Icmpv4TimestampReply" | .icmpv6 => "Icmpv6" | .igmp => "Igmp"
+  | .arp => "Arp"
+
+def showLenErr (e : LenError) : String :=
+  s!"err(len(req={e.req},len={e.len},src={showSrc e.src},layer={showLayer e.layer},off={e.off}))"
+
+def showW (w : Win) : String := showWin w.off w.len
+
+def showOptNat : Option Nat → String
+  | none => "none" | some n => s!"some({n})"
+
+/-! ### ICMPv4 / ICMPv6 -/
+
+def icmp4 (b : Bytes) : String :=
+  let sl := match icmp4FromSlice b with
+    | .error e => showLenErr e
+    | .ok s =>
+      let ty := icmp4Type s
+      s!"ok(type={ty.view.render},hl={icmp4SliceHeaderLen s},pl={showW (icmp4Payload s)},t={bAt s 0},c={bAt s 1},ck={be16 s 2},b58={hexOfBytes (bytes5to8 s)},sl={showWin 0 s.length},thl={ty.headerLen},fps={showOptNat ty.fixedPayloadSize})"
+  let hd := match icmp4HeaderFromSlice b with
+    | .err e => showLenErr e
+    | .panic => "panic"
+    | .ok h => s!"ok(type={h.icmpType.view.render},ck={h.checksum},rest={showW h.rest})"
+  s!"sl={sl};hd={hd}"
+
+def icmp6 (b : Bytes) : String :=
+  let sl := match icmp6FromSlice b with
+    | .error e => showLenErr e
+    | .ok s =>
+      let ty := icmp6Type s
+      s!"ok(type={ty.view.render},hl=8,pl={showW (icmp6Payload s)},t={bAt s 0},c={bAt s 1},ck={be16 s 2},b58={hexOfBytes (bytes5to8 s)},sl={showWin 0 s.length},tt={ty.typeU8},tc={ty.codeU8},thl={ty.headerLen},fps={showOptNat ty.fixedPayloadSize})"
+  let hd := match icmp6HeaderFromSlice b with
+    | .err e => showLenErr e
+    | .panic => "panic"
+    | .ok h => s!"ok(type={h.icmpType.view.render},ck={h.checksum},rest={showW h.rest})"
+  s!"sl={sl};hd={hd}"
+
+/-! ### NDP option iteration -/
+
+def showFields (fs : List (String × Val)) : String :=
+  ",".intercalate (fs.map fun p => p.1 ++ "=" ++ p.2.render)
+
+/-- drive the iterator like the harness: at most `fuel` steps, then two more `next()` calls. -/
+def ndpDrive : Nat → NdpIter → List String → (List String × Option NdpIter)
+  | 0, _, acc => (acc.reverse, none)          -- runaway
+  | fuel + 1, it, acc =>
+    match ndpNext it with
+    | none => (acc.reverse, some it)
+    | some (.ok o, it') =>
+      ndpDrive fuel it' (s!"{o.view.render}@{showWin it'.off it'.options.length}" :: acc)
+    | some (.error e, it') =>
+      ndpDrive fuel it' (s!"err({e.view.render})@{it'.options.length}" :: acc)
+
+def showStep (it : NdpIter) : String × NdpIter :=
+  match ndpNext it with
+  | none => ("none", it)
+  | some (.ok o, it') => (s!"some({o.view.render})", it')
+  | some (.error e, it') => (s!"some(err({e.view.render}))", it')
+
+/-- iterate the option area `area` that starts at absolute offset `base`. -/
+def ndpIterate (base : Nat) (area : Bytes) : String :=
+  let (items, fin) := ndpDrive (area.length / 8 + 3) { off := base, options := area } []
+  let body := "[" ++ ",".intercalate items ++ "]"
+  match fin with
+  | none => body ++ ";runaway"
+  | some it =>
+    let (a, it1) := showStep it
+    let (b, _) := showStep it1
+    s!"{body};tail={a},{b}"
+
+def ndpOptKind : String → Option NdpKind
+  | "sll" => some .sourceLinkLayerAddress | "tll" => some .targetLinkLayerAddress
+  | "prefix" => some .prefixInformation | "redirected" => some .redirectedHeader
+  | "mtu" => some .mtu | "unknown" => some .unknown | _ => none
+
+def ndpOpt (k : NdpKind) (s : Bytes) : String :=
+  match ndpOptFromSlice k s with
+  | .error e => s!"err({e.view.render})"
+  | .ok () => s!"ok({({ kind := k, off := 0, bytes := s } : NdpOpt).view.render})"
+
+def ndpHeader (s : Bytes) : String :=
+  match ndpHeaderFromSlice s with
+  | .error e => s!"err({e.view.render})"
+  | .ok (t, u) => s!"ok(type={t},units={u},blen={u * 8},rest={showWin 2 (s.length - 2)})"
+
+/-! ### ICMPv6 payload slices -/
+
+def showPayload (b : Bytes) (r : Except LenError Payload6Kind) : String :=
+  match r with
+  | .error e => showLenErr e
+  | .ok k =>
+    let p := b.drop 8
+    let sl := showWin 8 p.length
+    match k.options p.length with
+    | some w =>
+      let fx := showFields (k.fixedFields p)
+      let fx := if fx = "" then "" else fx ++ ","
+      let ow := showWin (8 + w.off) w.len
+      s!"{k.name}(sl={sl},{fx}opts={ow},tp=some({fx}opts={ow}),it={ndpIterate (8 + w.off) (p.drop w.off)})"
+    | none =>
+      match k with
+      | .raw => s!"Raw(sl={sl},tp=none)"
+      | _ => s!"{k.name}(sl={sl},data={sl},tp=none)"
+
+def icmp6Payload (b : Bytes) : String :=
+  match icmp6FromSlice b with
+  | .error e => showLenErr e
+  | .ok s =>
+    s!"ok(ps={showPayload s (icmp6PayloadSlice s)};tps={showPayload s (payload6FromType (icmp6Type s) (s.drop 8))})"
+
+/-! ### IGMP -/
+
+def igmp (b : Bytes) : String :=
+  match igmpFromSlice b with
+  | .error e => showLenErr e
+  | .ok h =>
+    let tenths := match h.igmpType with
+      | .membershipQueryWithSources r _ _ _ _ => toString (maxRespAs10thSecs r)
+      | _ => "-"
+    s!"ok(type={h.igmpType.view.render},hl={h.igmpType.headerLen},rest={showW h.rest},ck={h.checksum},tenths={tenths})"
+
+def igmpRecord (b : Bytes) : String :=
+  match groupRecordFromSlice b with
+  | .error e => showLenErr e
+  | .ok h => s!"ok(type={h.view.render},hl=8,rest={showW h.rest})"
+
+/-! ### ARP -/
+
+def arpEthIpv4 (b : Bytes) : String :=
+  match arpSliceFromSlice b with
+  | .error e => s!"sl={showLenErr e};pk={match arpPacketFromSlice b with | .error e => showLenErr e | .ok _ => "ok"}"
+  | .ok s =>
+    let h := bAt s 4
+    let p := bAt s 5
+    let sl := s!"ok(w={showWin 0 s.length},hrd={be16 s 0},pro={be16 s 2},hln={h},pln={p},op={be16 s 6},sha={showWin 8 h},spa={showWin (8 + h) p},tha={showWin (8 + h + p) h},tpa={showWin (8 + h * 2 + p) p})"
+    match arpPacketFromSlice b with
+    | .error e => s!"sl={sl};pk={showLenErr e}"
+    | .ok pk =>
+      let pks := s!"ok(hrd={pk.hwAddrType},pro={pk.protoAddrType},hln={pk.hwAddrSize},pln={pk.protoAddrSize},op={pk.operation},sha={hexOfBytes pk.senderHwAddr},spa={hexOfBytes pk.senderProtocolAddr},tha={hexOfBytes pk.targetHwAddr},tpa={hexOfBytes pk.targetProtocolAddr})"
+      let v := match tryEthIpv4 pk with
+        | .error e => s!"err({e.view.1}({e.view.2}))"
+        | .ok x => s!"ok({x.view.render})"
+      s!"sl={sl};pk={pks};v={v};tf={v}"
+
+/-! ### Spec twins (reference semantics for the oracle) -/
+
+def specIcmp (tbl : List Icmp.Entry) (maxLen : Option Nat) (b : Bytes) : String :=
+  match Icmp.check tbl maxLen b with
+  | some (.tooShort n l) => s!"err(req={n},len={l})"
+  | some (.notExact n l) => s!"err(req={n},len={l})"
+  | some (.tooLong n l) => s!"err(req={n},len={l})"
+  | none =>
+    let hl := Icmp.headerLen tbl b
+    s!"ok(type={(Icmp.view tbl b).render},hl={hl},pl={showWin hl (b.length - hl)}"
+
+def specRejectView : Ndp.Reject → String
+  | .truncatedHeader t h => s!"TruncatedHeader(type={t},have={h})"
+  | .zeroLength t => s!"ZeroLength(type={t})"
+  | .truncated t n h => s!"Truncated(type={t},need={n},have={h})"
+  | .wrongSize t n h => s!"WrongSize(type={t},need={n},have={h})"
+
+def specNdpOpts (base : Nat) (area : Bytes) : String :=
+  let r := Ndp.parse base area
+  let items := r.1.map fun o => o.view.render
+  let rej := match r.2 with
+    | none => "none"
+    | some x => specRejectView x
+  "[" ++ ",".intercalate items ++ "];" ++ rej
+
+def specIcmp6Payload (b : Bytes) : String :=
+  if b.length < 8 then "short"
+  else
+    match Ndp.lookupMsg (bAt b 0) (bAt b 1) with
+    | none => "other"
+    | some e =>
+      match Ndp.split e b with
+      | .tooShort n l => s!"err(req={n - 8},len={l - 8})"
+      | .ok v o l =>
+        let fx := showFields v.fields
+        let fx := if fx = "" then "" else fx ++ ","
+        s!"{v.kind}(sl={showWin 8 (b.length - 8)},{fx}opts={showWin o l};{specNdpOpts o (b.drop o)}"
+
+def specIgmpOutcome : Igmp.Outcome → Nat → String
+  | .tooShort n l, _ => s!"err(req={n},len={l})"
+  | .ok v hl, len => s!"ok(type={v.render},hl={hl},rest={showWin hl (len - hl)}"
+
+def specArp (b : Bytes) : String :=
+  match Arp.decodeEthIpv4 b with
+  | .tooShort n l a => s!"short(req={n},len={l},addr={if a then 1 else 0})"
+  | .mismatch name v => s!"mismatch({name}({v}))"
+  | .ok v n => s!"ok({v.render});len={n}"
 
 def run (op : String) (args : List String) : Option String :=
   match op, args with
+  | "view.icmp4", [h] => do let b ← argHex h; pure (icmp4 b)
+  | "view.icmp6", [h] => do let b ← argHex h; pure (icmp6 b)
+  | "view.icmp6_payload", [h] => do let b ← argHex h; pure (icmp6Payload b)
+  | "view.ndp_opts", [h] => do let b ← argHex h; pure (ndpIterate 0 b)
+  | "view.ndp_opt", [k, h] => do
+      let b ← argHex h
+      if k = "header" then pure (ndpHeader b)
+      else do let k ← ndpOptKind k; pure (ndpOpt k b)
+  | "view.igmp", [h] => do let b ← argHex h; pure (igmp b)
+  | "view.igmp_record", [h] => do let b ← argHex h; pure (igmpRecord b)
+  | "view.arp_eth_ipv4", [h] => do let b ← argHex h; pure (arpEthIpv4 b)
+  | "spec.view.icmp4", [h] => do let b ← argHex h; pure (specIcmp Icmp.icmp4Table none b)
+  | "spec.view.icmp6", [h] => do
+      let b ← argHex h; pure (specIcmp Icmp.icmp6Table (some Icmp.icmp6MaxLen) b)
+  | "spec.view.icmp6_payload", [h] => do let b ← argHex h; pure (specIcmp6Payload b)
+  | "spec.view.ndp_opts", [h] => do let b ← argHex h; pure (specNdpOpts 0 b)
+  | "spec.view.igmp", [h] => do let b ← argHex h; pure (specIgmpOutcome (Igmp.decode b) b.length)
+  | "spec.view.igmp_record", [h] => do
+      let b ← argHex h; pure (specIgmpOutcome (Igmp.decodeRecord b) b.length)
+  | "spec.view.arp_eth_ipv4", [h] => do let b ← argHex h; pure (specArp b)
   | _, _ => none
 
 end EpModel.Driver.View
